@@ -108,18 +108,23 @@ inline std::vector<Entry> buildEntries()
     };
     for (auto &po : pairOps) {
         auto fn = po.fn;
-        add(std::string(po.name) + "(variable1*,variable2)", RK_VAR, po.role, ENT, po.judge, po.cm, R_ALL, [fn](Fix &f, Cls c) { return fn(f.badVar(c), f.rV); });
-        add(std::string(po.name) + "(variable1,variable2*)", RK_VAR, po.role, ENT, po.judge, po.cm, R_ALL, [fn](Fix &f, Cls c) { return fn(f.rV, f.badVar(c)); });
+        add(std::string(po.name) + "(variable1*,variable2)", RK_VAR, po.role, ENT, po.judge, po.cm, R_VAR, [fn](Fix &f, Cls c) { return fn(f.badVar(c), f.rV); });
+        add(std::string(po.name) + "(variable1,variable2*)", RK_VAR, po.role, ENT, po.judge, po.cm, R_VAR, [fn](Fix &f, Cls c) { return fn(f.rV, f.badVar(c)); });
     }
-    add("Variable::equivalentVariable(index*)", RK_VAR, TARGET, IDX, true, M_IDX, R_ALL, [](Fix &f, Cls c) { return P_(f.rV->equivalentVariable(Fix::badIdx(c, f.rV->equivalentVariableCount()))); });
-    add("Variable::hasEquivalentVariable(variable*)", RK_VAR, TARGET, ENT, true, M_ENT_T, R_ALL, [](Fix &f, Cls c) { return B(f.rV->hasEquivalentVariable(f.badVar(c), false)); });
-    add("Variable::hasEquivalentVariable(variable*,indirect)", RK_VAR, TARGET, ENT, true, M_ENT_T, R_ALL, [](Fix &f, Cls c) { return B(f.rV->hasEquivalentVariable(f.badVar(c), true)); });
-    add("Variable::removeAllEquivalences()", RK_VAR, QUERY, NOARG, false, M_NONE, R_ALL, [](Fix &f, Cls) { f.rV->removeAllEquivalences(); return V(); });
-    add("Variable::setUnits(units*)", RK_VAR, PAYLOAD, ENT, false, M_NULL, R_ALL, [](Fix &f, Cls) { f.rV->setUnits(UnitsPtr()); return V(); });
-    add("Variable::setInitialValue(variable*)", RK_VAR, PAYLOAD, ENT, false, M_NULL, R_ALL, [](Fix &f, Cls) { f.rV->setInitialValue(VariablePtr()); return V(); });
-    add("Variable::equals(entity*)", RK_VAR, TARGET, ENT, true, M_NULL, R_ALL, [](Fix &f, Cls) { return B(f.rV->equals(nullptr)); });
-    add("Variable::hasAncestor(entity*)", RK_VAR, TARGET, ENT, true, M_ENT_T, R_ALL, [](Fix &f, Cls c) { return B(f.rV->hasAncestor(f.badComp(c))); });
-    add("Variable::clone()", RK_VAR, QUERY, NOARG, false, M_NONE, R_ALL, [](Fix &f, Cls) { return P_(f.rV->clone()); });
+    add("Variable::equivalentVariable(index*)", RK_VAR, TARGET, IDX, true, M_IDX, R_VAR, [](Fix &f, Cls c) { return P_(f.rV->equivalentVariable(Fix::badIdx(c, f.rV->equivalentVariableCount()))); });
+    add("Variable::hasEquivalentVariable(variable*)", RK_VAR, TARGET, ENT, true, M_ENT_T, R_VAR, [](Fix &f, Cls c) { return B(f.rV->hasEquivalentVariable(f.badVar(c), false)); });
+    add("Variable::hasEquivalentVariable(variable*,indirect)", RK_VAR, TARGET, ENT, true, M_ENT_T, R_VAR, [](Fix &f, Cls c) { return B(f.rV->hasEquivalentVariable(f.badVar(c), true)); });
+    add("Variable::equivalentVariable(i) below count", RK_VAR, QUERY, NOARG, true, M_NONE, R_VAR, [](Fix &f, Cls) {
+        bool bad = false; // a listed equivalent variable is never null / destroyed
+        for (size_t i = 0; i < f.rV->equivalentVariableCount(); ++i) bad = bad || f.rV->equivalentVariable(i) == nullptr;
+        return B(bad);
+    });
+    add("Variable::removeAllEquivalences()", RK_VAR, QUERY, NOARG, false, M_NONE, R_VAR, [](Fix &f, Cls) { f.rV->removeAllEquivalences(); return V(); });
+    add("Variable::setUnits(units*)", RK_VAR, PAYLOAD, ENT, false, M_NULL, R_VAR, [](Fix &f, Cls) { f.rV->setUnits(UnitsPtr()); return V(); });
+    add("Variable::setInitialValue(variable*)", RK_VAR, PAYLOAD, ENT, false, M_NULL, R_VAR, [](Fix &f, Cls) { f.rV->setInitialValue(VariablePtr()); return V(); });
+    add("Variable::equals(entity*)", RK_VAR, TARGET, ENT, true, M_NULL, R_VAR, [](Fix &f, Cls) { return B(f.rV->equals(nullptr)); });
+    add("Variable::hasAncestor(entity*)", RK_VAR, TARGET, ENT, true, M_ENT_T, R_VAR, [](Fix &f, Cls c) { return B(f.rV->hasAncestor(f.badComp(c))); });
+    add("Variable::clone()", RK_VAR, QUERY, NOARG, false, M_NONE, R_VAR, [](Fix &f, Cls) { return P_(f.rV->clone()); });
     // ------------------------------------------------------------ Units
     add("Units::unitAttributeReference(index*)", RK_UNITS, TARGET, IDX, true, M_IDX, R_ALL, [](Fix &f, Cls c) { return S(f.rU->unitAttributeReference(Fix::badIdx(c, f.rU->unitCount()))); });
     add("Units::setUnitAttributeReference(index*,ref)", RK_UNITS, TARGET, IDX, true, M_IDX, R_ALL, [](Fix &f, Cls c) { f.rU->setUnitAttributeReference(Fix::badIdx(c, f.rU->unitCount()), "second"); return V(); });
@@ -166,8 +171,8 @@ inline std::vector<Entry> buildEntries()
     // ------------------------------------------------------------ UnitsItem / VariablePair
     add("UnitsItem::create(units*,index)", RK_SERVICE, TARGET, ENT, true, M_NULL, R_F, [](Fix &, Cls) { auto ui = UnitsItem::create(nullptr, 0); return B(ui && ui->isValid()); });
     add("UnitsItem::create(units,index*)", RK_UNITS, TARGET, IDX, true, M_IDX, R_ALL, [](Fix &f, Cls c) { auto ui = UnitsItem::create(f.rU, Fix::badIdx(c, f.rU->unitCount())); return B(ui && ui->isValid()); });
-    add("VariablePair::create(variable1*,variable2)", RK_VAR, TARGET, ENT, true, M_NULL, R_ALL, [](Fix &f, Cls) { auto vp = VariablePair::create(nullptr, f.rV); return B(vp && vp->isValid()); });
-    add("VariablePair::create(variable1,variable2*)", RK_VAR, TARGET, ENT, true, M_NULL, R_ALL, [](Fix &f, Cls) { auto vp = VariablePair::create(f.rV, nullptr); return B(vp && vp->isValid()); });
+    add("VariablePair::create(variable1*,variable2)", RK_VAR, TARGET, ENT, true, M_NULL, R_VAR, [](Fix &f, Cls) { auto vp = VariablePair::create(nullptr, f.rV); return B(vp && vp->isValid()); });
+    add("VariablePair::create(variable1,variable2*)", RK_VAR, TARGET, ENT, true, M_NULL, R_VAR, [](Fix &f, Cls) { auto vp = VariablePair::create(f.rV, nullptr); return B(vp && vp->isValid()); });
 
     // ------------------------------------------------------------ Annotator
     {
